@@ -7,6 +7,7 @@ import RedoModel.DepsWire
 import RedoModel.TokensWire
 import RedoModel.SqlTxnWire
 import RedoModel.LocksWire
+import RedoModel.OnceWire
 open RedoModel RedoModel.Wire
 
 def decList (s : String) : Option (List (List Char)) :=
@@ -110,6 +111,7 @@ def respond (line : String) : String :=
   | ["tokens-replay", k, evs] => TokensWire.respond k evs
   | ["sqltxn-replay", evs] => SqlTxnWire.respond evs
   | ["locks-replay", evs] => LocksWire.respond evs
+  | ["once-replay", evs] => OnceWire.respond evs
   | _ => "bad-op"
 
 partial def loop (h : IO.FS.Stream) (out : IO.FS.Stream) : IO Unit := do
